@@ -46,7 +46,7 @@ func init() {
 			"C2 state declared goroutine-confined is only accessed in functions reachable (call graph) from its owner goroutine's entry; C3 fields used with sync/atomic are only used with sync/atomic; C4 every other field of a lock-bearing type is never stored to on a shared object outside constructors/option closures (setup-time setters listed); " +
 			"C5 the held→acquired lock graph is acyclic, no mutex is re-acquired while held on the same object, and no WaitGroup.Wait/blocking channel operation happens under a lock its counterpart can need; D4 the close of each lifecycle channel and the isClosed/Add/go start sequence run under the same mutex.",
 		notDecided:  "races on memory the table does not name (fields of pion/rtp, pion/rtcp, x/time/rate objects; the Attributes map handed to packetdump's logger goroutine), lost updates that are not data races, liveness, stalls while a private lock is held across a downstream Write (noted, not a violation)",
-		sels:        []sel{s("C1"), s("C2"), s("C3"), s("C4"), s("C5"), s("D4")},
+		sels:        []sel{s("C1"), s("C2"), s("C3"), s("C4"), s("C5"), s("C6"), s("D4")},
 		assumptions: append([]string{"locks are identified by (struct type, field): two instances of one type are not distinguished", "the guard table and confinement table are hand-confirmed; every row must resolve to at least one access or the check fails", "exported methods are entry points with an empty lockset"}, stdAssume...),
 	})
 	def(&propDef{
@@ -56,5 +56,30 @@ func init() {
 		notDecided:  "wall-clock promptness; goroutines blocked inside a user-supplied writer; that nothing is written after Close returns when the goroutine is accounted but slow; double Close",
 		sels:        []sel{s("D1"), s("D2"), s("D3"), s("D4"), s("D5"), s("D6")},
 		assumptions: append([]string{"channels are identified by the struct fields / make sites they flow through (parameters resolved through static call sites)", "only closes executed from a Close method count as shutdown signals"}, stdAssume...),
+	})
+}
+
+func init() {
+	def := func(pd *propDef) { props[pd.id] = pd }
+	stdAssume := []string{
+		"go/ssa and go/types model the program faithfully; callees are resolved by type information (static callee or CHA/VTA call graph)",
+	}
+	def(&propDef{
+		id: "C13", title: "Caller-owned buffers are not retained or modified after a call returns",
+		explanation: "Decides two structural clauses for every per-packet writer/reader closure and every pacer Write: B — a forward taint analysis with function summaries from the caller's header pointer, payload slice and read buffer (including shallow struct copies, sub-slices, references loaded out of them, local carriers, closures capturing them) finds no flow into memory that outlives the call (fields of shared objects, globals, maps, channels, goroutines, sync.Pool/list/sync.Map) except through copy/Clone/append-of-bytes; " +
+			"A3 — no store through the caller's header/payload in the closure or any repository callee (only the negotiated transport-wide-CC SetExtension). Documented exceptions are frozen one by one (PacketFactoryNoOp = DisableCopy; the per-packet Attributes map).",
+		notDecided:  "aliasing manufactured inside pion/rtp parsing (extension payload slices of a header returned by Attributes.GetRTPHeader(b[:n]) point into b); the Attributes map itself; direct use of JitterBuffer.Push (excluded by the property)",
+		sels:        []sel{s("B"), s("A3")},
+		assumptions: append([]string{"library calls outside the deny-list (sync.Pool.Put, container/list insertions, sync.Map.Store, atomic.Value.Store) do not retain their arguments; results of external methods other than Clone/Marshal/MarshalSize may alias their receiver"}, stdAssume...),
+	})
+	def(&propDef{
+		id: "C04", title: "NACK responder retransmits exactly what was sent",
+		explanation: "Decides the structural clauses that make the retransmission buffer hold what was sent: F2 — the copy into the 1460-byte pooled buffer is bounded on every path class including the 2-byte RTX offset (no silent truncation); B — what the responder stores is the factory's deep copy, never the caller's memory (DisableCopy excepted); " +
+			"T1 — retain/release typestate: every packet obtained from RTPBuffer.Get is released exactly once after its last use, every slot overwrite in RTPBuffer.Add/Clear releases the previous occupant exactly once, Get hands out only packets that passed a successful Retain (a double release would recycle a buffer that is still being retransmitted); " +
+			"C1 — ring, stream table and reference count are only touched under their mutexes; A1 — the original packet is forwarded exactly once after the copy; D5 — unbind removes the stream's ring.",
+		notDecided:  "which sequence numbers the ring holds (window arithmetic seq%size, half-range tests), RTX header field values, the padding arithmetic, that the retransmission goroutine has finished when Close returns (known finding under C11)",
+		sels: []sel{s("F2", `rtpbuffer`), s("B", `nack\.\(\*ResponderInterceptor\)`), s("T1"), s("C1", `pkg/nack\.(localStream|ResponderInterceptor)\.|rtpbuffer\.RetainablePacket\.`),
+			s("A1", `nack\.\(\*ResponderInterceptor\)`), s("D5", `nack\.ResponderInterceptor`)},
+		assumptions: stdAssume,
 	})
 }
